@@ -135,7 +135,7 @@ PROPS["C19"] = dict(
 )
 PROPS["C04"] = dict(
     level="other",
-    modules=["contracts.c_taproot", "contracts.c_ssa", "contracts.c_dsa", "contracts.c_curve", "contracts.c_protocols", "contracts.c_history", "contracts.c_engine"],
+    modules=["contracts.c_taproot", "contracts.c_ssa", "contracts.c_dsa", "contracts.c_curve", "contracts.c_protocols", "contracts.c_history", "contracts.c_engine", "contracts.c_bip32"],
     not_decided=["the C arm's results for all inputs: assumed; only the bounded differential below is checked"],
     assumptions=["btclib_secp256k1 (libsecp256k1 bindings) is trusted code outside the Python subset"],
     explanation="Every dual-path API under contract is run on both arms (set_libsecp256k1_serving True/False) over generated inputs (valid and malformed): both must satisfy the same contract and give the same value / the same exception class (arms.differ obligation). Bounded differential, labelled bounded; no proof about the C arm.",
